@@ -234,6 +234,51 @@ def run(c):
             if p.get("calls"):
                 c.sample({"src": p["src"][:400], "call": p["calls"][0]["args_go"], "quasigo": p["calls"][0]["res"], "go": p["calls"][0].get("oracle")})
 
+    # ---- dsl/types natives: engine-level differential (custom filter mirroring a built-in predicate / go/types fact)
+    def dsl_differential(seed, nfiles, tag):
+        hd = c.build_harness("c04dsl")
+        if hd is None:
+            return
+        rc, out = c.run_harness(hd, ["-seed", str(seed), "-n", str(nfiles), "-brief", "-tmp", os.path.join(c.work, "tmpdsl-" + tag)], timeout=1200)
+        summ = None
+        for line in out.splitlines():
+            line = line.strip()
+            if not line.startswith("{"):
+                continue
+            try:
+                o = json.loads(line)
+            except ValueError:
+                continue
+            k = o.get("k")
+            if k == "summary":
+                summ = o
+            elif k == "pairstat":
+                if o.get("accepted_both", 0) > 0 and o.get("rejected_both", 0) > 0:
+                    c.nontriv("dslpair:" + o["pair"])
+            elif k == "pair" and o.get("builtin") != o.get("custom"):
+                c.fail("oracle", "custom filter mirroring a built-in predicate disagrees with it",
+                       input={"pair": o.get("pair"), "site": o.get("site"), "file": o.get("file"), "off": o.get("off"), "seed": seed},
+                       expected={"builtin": o.get("builtin")}, observed={"custom": o.get("custom")})
+            elif k == "direct" and o.get("expected") != o.get("observed"):
+                c.fail("oracle", "dsl/types helper returns something else than go/types",
+                       input={"what": o.get("what"), "site": o.get("site"), "file": o.get("file"), "off": o.get("off"), "seed": seed},
+                       expected=o.get("expected"), observed=o.get("observed"))
+            elif k == "panic":
+                c.fail("oracle", "custom filter / Do function panics", input={"what": o.get("what"), "file": o.get("file"), "seed": seed},
+                       observed=str(o)[:500], expected="no panic")
+            elif k == "anomaly":
+                c.fail("corr", "c04dsl: unexpected report", input=o)
+            elif k == "fatal":
+                c.obligation("harness-run:c04dsl", False, str(o)[:2000])
+        if rc != 0 or summ is None:
+            c.obligation("harness-run:c04dsl", False, out[-2000:])
+            return
+        c.count(summ["pair_cases"] + summ["direct_cases"])
+        for k in ("sites", "pairs", "groups", "pair_cases", "direct_cases", "accepted_both", "rejected_both"):
+            c.coverage["dsl_" + k] = c.coverage.get("dsl_" + k, 0) + summ[k]
+
+    dsl_differential(c.seed, 4 if not thorough else 24, "main")
+
     n = 120 if not thorough else 1500
     progs, summ = observe(n, c.seed, "logic", corpus=True)
     compare(progs, summ, "main")
